@@ -221,13 +221,31 @@ def write_hash_list(hash_list: MHLHashList, file_path: str):
     before creating the next one"""
 
     directory_path = os.path.dirname(file_path)
+    directory_created = False
     if not os.path.isdir(directory_path):
         os.mkdir(directory_path)
+        directory_created = True
 
     # write to a temporary name (not picked up when loading a history) and move the complete file into place at
     # the end, so an interrupted run never leaves a half-written manifest behind
     temp_file_path = file_path + ".tmp"
     file = open(temp_file_path, "wb")
+    try:
+        _write_hash_list_to_file(hash_list, file_path, file)
+        file.flush()
+        file.close()
+    except BaseException:
+        # a run that fails while writing leaves nothing behind: neither the temporary file nor a folder made for it
+        file.close()
+        os.remove(temp_file_path)
+        if directory_created:
+            os.rmdir(directory_path)
+        raise
+    os.replace(temp_file_path, file_path)
+
+
+def _write_hash_list_to_file(hash_list: MHLHashList, file_path: str, file):
+    """writes the xml of the hash list to the given (open) file"""
     file.write(b'<?xml version="1.0" encoding="UTF-8"?>\n<hashlist version="2.0" xmlns="urn:ASC:MHL:v2.0">\n')
     current_indent = "  "
 
@@ -264,9 +282,6 @@ def write_hash_list(hash_list: MHLHashList, file_path: str):
 
     current_indent = current_indent[:-2]
     _write_xml_string_to_file(file, "</hashlist>\n", current_indent)
-    file.flush()
-    file.close()
-    os.replace(temp_file_path, file_path)
 
 
 def _write_xml_element_to_file(file, xml_element, indent: str):
